@@ -157,12 +157,18 @@ func forall(lo, hi int, f func(int) bool) bool {
 //@   modifies nothing
 //@   ensures same(result, ghostListing(self))
 
+// With a savepoint URI configured (C14) the job state comes from that savepoint: its DKV files
+// are copied back into place before the checkpoint is adopted.
 //@ func Store.LoadCheckpoint
-//@   property C13 C12
+//@   property C13 C12 C14
 //@   exclusive
 //@   nosafety
-//@   requires s.savepointURI == ""
-//@   atcall SnapshotForURI: ghostIsSnap(arg0) && exists(0, seqlen(ghostListing(s.fileStore)), func(i int) bool { return seqat(ghostListing(s.fileStore), i) == arg0 }) &&
+//@   atcall SnapshotForURI@0: s.savepointURI != "" && arg0 == s.savepointURI
+//@   atcall RestoreCheckpointFromSavepointArtifact: s.savepointURI != "" && same(arg0, s.fileStore) && arg1 == s.savepointURI && arg2 == snap
+//@   order RestoreCheckpointFromSavepointArtifact after SnapshotForURI
+//@   ensures result == nil && s.savepointURI != "" ==> len(s.state.completedSnapshots) == 1 && s.state.checkpointID == s.state.completedSnapshots[0].id
+//@   ensures result == nil && s.savepointURI != "" ==> called(RestoreCheckpointFromSavepointArtifact)
+//@   atcall SnapshotForURI@1: ghostIsSnap(arg0) && exists(0, seqlen(ghostListing(s.fileStore)), func(i int) bool { return seqat(ghostListing(s.fileStore), i) == arg0 }) &&
 //@          forall(0, seqlen(ghostListing(s.fileStore)), func(i int) bool { return ghostIsSnap(seqat(ghostListing(s.fileStore), i)) ==> ghostSnapID(seqat(ghostListing(s.fileStore), i)) <= ghostSnapID(arg0) })
 //@   loop 0:
 //@     invariant latestCheckpointFile == "" ==> forall(0, idx_, func(p int) bool { return !ghostIsSnap(seqat(coll_, p)) })
@@ -181,13 +187,15 @@ func forall(lo, hi int, f func(int) bool) bool {
 // one, even if a later checkpoint was published while this one was still being
 // written. old(...) of the guarded state is its value when stateMu was acquired.
 //@ func Store.finishSnapshotAsync
-//@   property C13 C12
+//@   property C13 C12 C14
 //@   nosafety
 //@   requires snap != nil
-//@   modifies s.state
+//@   atcall CreateSavepointArtifact: snap.isSavepoint && same(arg0, s.fileStore) && arg1 == s.savepointsPath && arg2 == uri && arg3 == snap
+//@   ensures result1 == nil && snap.isSavepoint ==> copied(s.fileStore, result0, filepath.Join(s.savepointsPath, pathSegment(snap.id), "job.savepoint"))
+//@   modifies s.state, locations.StorageLocation.copies
 //@   ensures result1 == nil ==> forall(0, old(len(s.state.completedSnapshots)), func(j int) bool {
-//@           return exists(0, len(s.state.completedSnapshots), func(k int) bool { return s.state.completedSnapshots[k].id >= old(s.state.completedSnapshots)[j].id }) })
-//@   ensures result1 == nil ==> exists(0, len(s.state.completedSnapshots), func(k int) bool { return s.state.completedSnapshots[k].id >= snap.id })
+//@           return exists(0, len(s.state.completedSnapshots), 0, j, func(k int) bool { return s.state.completedSnapshots[k].id >= old(s.state.completedSnapshots)[j].id }) })
+//@   ensures result1 == nil ==> exists(0, len(s.state.completedSnapshots), 0, func(k int) bool { return s.state.completedSnapshots[k].id >= snap.id })
 //@   loop 0:
 //@     invariant superseded == exists(0, idx_, func(j int) bool { return s.state.completedSnapshots[j].id > snap.id })
 
